@@ -75,6 +75,26 @@ def rnd_number(rng):
     return s
 
 
+def rnd_rows(rng):
+    """an array of objects (4-6 members) in which neighbouring rows differ only by the SPELLING or the last bits of a number:
+    1 / 1.0 / 1e0, 2^53+1 / 2^53, 0.0 / -0.0, 0.3 / 0.30000000000000004 — equal for a tolerant ==, different as JSON"""
+    groups = [["1", "1.0", "1e0", "10e-1"], ["9007199254740993", "9007199254740992", "9007199254740992.0"], ["0", "0.0", "-0.0", "-0"],
+              ["0.3", "0.30000000000000004"], ["18446744073709551615", "18446744073709551614", "1.8446744073709552e19"],
+              ["-9223372036854775808", "-9223372036854775807"], ["100", "1e2", "100.0"], ["0.71", "0.7100000000000002"]]
+    keys = rng.sample(["id", "a", "b", "c", "name", "k", "v", "w"], rng.randrange(4, 7))
+    g = rng.choice(groups)
+    var = rng.choice(keys)
+    rows = []
+    fixed = {k: rng.choice(["1", "\"x\"", "null", "[1,2]", "{\"z\":0}", "true", "2.5"]) for k in keys}
+    for _ in range(rng.randrange(2, 6)):
+        vals = dict(fixed)
+        vals[var] = rng.choice(g)
+        if rng.random() < 0.3:
+            vals[var] = "[%s]" % rng.choice(g)
+        rows.append("{" + ",".join("\"%s\":%s" % (k, vals[k]) for k in keys) + "}")
+    return rng.choice(["[%s]", "{\"rows\":[%s]}", "[[%s]]"]) % ",".join(rows)
+
+
 def rnd_json(rng, depth=3):
     w = lambda: rng.choice(WS)
     r = rng.random()
@@ -274,6 +294,7 @@ def run(ctx):
     texts = [S.corpus_expr(l) for l in S.load_corpus("C08")]
     texts += [rnd_json(rng, rng.choice([1, 2, 3, 4])) for _ in range(4000 if q else 600000)]
     texts += [rnd_number(rng) for _ in range(3000 if q else 400000)]
+    texts += [rnd_rows(rng) for _ in range(600 if q else 60000)]
     texts += [rnd_string(rng) for _ in range(500 if q else 50000)]
     texts += [malformed(rng) for _ in range(1000 if q else 150000)]
     texts += ["[" * d + "1" + "]" * d for d in (1, 64, 126, 127, 128, 129, 500)]
